@@ -232,6 +232,70 @@ impl Frame {
 //@end
 }
 
+// ---------------- C13: the single-frame row view of the finished columns ----------------
+impl OffsetsBuffer<i32> {
+	#[verifier::external_body]
+	pub fn start_end(&self, i: usize) -> (r: (usize, usize))
+		requires i + 1 < self@.len(), self@[i as int] >= 0, self@[i as int + 1] >= 0,
+		ensures r.0 == self@[i as int], r.1 == self@[i as int + 1],
+	{ unimplemented!() }
+}
+pub open spec fn data_row_eq(d: &Data, row: &transpose::Data, i: int) -> bool { d.pre.row_eq(row.pre, i) && d.post.row_eq(row.post, i) }
+pub open spec fn port_row_eq(p: &PortData, row: &transpose::PortData, i: int) -> bool {
+	&&& row.port == p.port && data_row_eq(&p.leader, &row.leader, i)
+	&&& (row.follower is Some) == (p.follower is Some) && (p.follower is Some ==> data_row_eq(&p.follower->Some_0, &row.follower->Some_0, i))
+}
+impl Data {
+//@fn src/frame/immutable/mod.rs | impl Data | transpose_one | ret=res
+	requires data_wf(self, version, self.pre.len_spec()), i < self.pre.len_spec(),
+	ensures data_row_eq(self, &res, i as int) /*[C13.character_row]*/,
+//@end
+}
+impl PortData {
+//@fn src/frame/immutable/mod.rs | impl PortData | transpose_one | ret=res
+	requires port_wf(self, version, self.leader.pre.len_spec()), i < self.leader.pre.len_spec(),
+	ensures port_row_eq(self, &res, i as int) /*[C13.port_row]*/,
+//@end
+}
+impl Frame {
+//@fn src/frame/immutable/mod.rs | impl Frame | transpose_one | ret=res
+	requires frame_wf(self, version), i < self.id@.len(),
+	ensures
+		res.id == self.id.values_spec()[i as int] /*[C13.frame_id]*/,
+		res.ports@.len() == self.ports@.len() && (forall|k: int| 0 <= k < self.ports@.len() ==> port_row_eq(#[trigger] &self.ports@[k], &res.ports@[k], i as int)) /*[C13.ports]*/,
+		(res.start is Some) == version.ge(2, 2) && (version.ge(2, 2) ==> self.start->Some_0.row_eq(res.start->Some_0, i as int)) /*[C13.start]*/,
+		(res.end is Some) == version.ge(3, 0) && (version.ge(3, 0) ==> self.end->Some_0.row_eq(res.end->Some_0, i as int)) /*[C13.end]*/,
+		(res.items is Some) == version.ge(3, 0) /*[C13.items_iff_3_0]*/,
+		version.ge(3, 0) ==> ({
+			let lo = self.item_offset->Some_0@[i as int] as int;
+			let hi = self.item_offset->Some_0@[i as int + 1] as int;
+			&&& res.items->Some_0@.len() == hi - lo
+			&&& forall|k: int| 0 <= k < hi - lo ==> self.item->Some_0.row_eq(#[trigger] res.items->Some_0@[k], lo + k)
+		}) /*[C13.items_are_the_offset_slice]*/,
+//@loop 1
+		invariant ic__ <= self.ports@.len(), out__@.len() == ic__, frame_wf(self, version), i < self.id@.len(),
+			forall|k: int| 0 <= k < ic__ ==> port_row_eq(#[trigger] &self.ports@[k], &out__@[k], i as int),
+		decreases self.ports@.len() - ic__,
+//@before let (start, end)
+				let ghost fi = i as int;
+//@loop 2
+		invariant frame_wf(self, version), fi < self.id@.len(), 0 <= fi, version.ge(3, 0),
+			start == self.item_offset->Some_0@[fi], endc__1 == end, end == self.item_offset->Some_0@[fi + 1],
+			start <= i <= end, out__1@.len() == i - start,
+			forall|k: int| 0 <= k < i - start ==> self.item->Some_0.row_eq(#[trigger] out__1@[k], start + k),
+		decreases end - i,
+//@end
+}
+// Game::frame(idx) (impl game::Game for Game) delegates with the start block's version
+impl Game {
+//@fn src/game/immutable.rs | impl game::Game for Game | frame | ret=res | twin=__view
+	requires frame_wf(&self.frames, ver(self)), idx < self.frames.id@.len(),
+	ensures res.id == self.frames.id.values_spec()[idx as int] /*[C13.game_frame_is_row_idx]*/,
+		res.ports@.len() == self.frames.ports@.len() && (forall|k: int| 0 <= k < self.frames.ports@.len() ==> port_row_eq(#[trigger] &self.frames.ports@[k], &res.ports@[k], idx as int)),
+		(res.start is Some) == ver(self).ge(2, 2), (res.end is Some) == ver(self).ge(3, 0), (res.items is Some) == ver(self).ge(3, 0) /*[C13.absent_fields_by_version]*/,
+//@end
+}
+
 // ------------------------------------------------------------------------------------------------
 // src/io/slippi/ser.rs
 //@struct src/io/slippi/ser.rs PayloadSizes
@@ -475,13 +539,13 @@ def template(repo):
     L = gen_codec.build_layouts(repo, REL, 'PrimitiveArray', 'Bitmap')
     out = [HEADER]
     out.append('pub mod transpose {\nuse super::*;')
-    for s in gen_codec.ORDER:
+    for s in gen_codec.ORDER + ['Data', 'PortData', 'Frame']:
         out.append('//@struct src/frame/transpose.rs %s' % s)
     out.append('}')
     for s in gen_codec.ORDER:
         out.append('//@struct %s %s' % (REL, s))
         out.append(gen_codec.immutable_specs(L, s, with_from=False))
-        out.append(gen_codec.immutable_fn_contracts(L, s, REL, REL_S, stub=True, only=('write', 'size')))
+        out.append(gen_codec.immutable_fn_contracts(L, s, REL, REL_S, stub=True, only=('write', 'size', 'transpose_one')))
     out.append(FRAME)
     out.append('} // verus!\nfn main() {}')
     return '\n'.join(out)
